@@ -8,11 +8,11 @@ use std::collections::{BTreeMap, HashMap};
 
 const NAMES: [&str; 4] = ["A", "B", "C", "D"];
 const TEXTS: [&str; 6] = [
-  "class Foo(val x: int) { function make(): Foo = Foo.init(1) }",
-  "import { Foo } from A\nclass UseA { function f(): Foo = Foo.make() }",
-  "import { Foo } from C\nclass UseC { function f(): Foo = Foo.make() }",
-  "class Foo(val x: int) { function make(): int = 1 }",
-  "import { UseA } from B\nclass Chain { function g(): int = UseA.f().x }",
+  "class FooConfigurationRecord(val x: int) { function makeTheDefaultConfiguration(): FooConfigurationRecord = FooConfigurationRecord.init(1) }",
+  "import { FooConfigurationRecord } from A\nclass UseOfModuleAlphaRecord { function f(): FooConfigurationRecord = FooConfigurationRecord.makeTheDefaultConfiguration() }",
+  "import { FooConfigurationRecord } from C\nclass UseOfModuleGammaRecord { function f(): FooConfigurationRecord = FooConfigurationRecord.makeTheDefaultConfiguration() }",
+  "class FooConfigurationRecord(val x: int) { function makeTheDefaultConfiguration(): int = 1 }",
+  "import { UseOfModuleAlphaRecord } from B\nclass ChainOfDependenciesRecord { function g(): int = UseOfModuleAlphaRecord.f().x }",
   // a type error and a syntax error in one module
   "class Test {\n  function f(): int = \"one\"\n  function g(): int =\n}\n",
 ];
@@ -62,7 +62,8 @@ fn run(history: &[Op]) -> Result<(), String> {
     NAMES.iter().map(|n| heap.alloc_module_reference_from_string_vec(vec![n.to_string()])).collect();
   let mut contents: BTreeMap<usize, usize> = BTreeMap::from([(0, 0), (1, 1), (3, 4)]);
   let sources = contents.iter().map(|(m, t)| (refs[*m], TEXTS[*t].to_string())).collect::<HashMap<_, _>>();
-  let mut state = ServerState::new(heap, false, sources);
+  // garbage collection of interned strings on, as in the language server (identifiers longer than 15 bytes live in the heap)
+  let mut state = ServerState::new(heap, true, sources);
   for op in history {
     match *op {
       Op::Update(m, t) => {
